@@ -782,3 +782,203 @@ Section Walk.
     rewrite dscan_app, S1. cbn [app]. rewrite <- (Env_app s s1 c1 C1). exact S2.
   Qed.
 End Walk.
+
+(** ** Globals: a name is bound to the record that carries it *)
+Definition GOk (G : globals) : Prop :=
+  (forall x c, alookup x (g_consts G) = Some c -> c_name c = x) /\
+  (forall x fd, alookup x (g_funcs G) = Some fd -> f_name fd = x).
+
+Lemma alookup_snoc {V} x (l : list (string * V)) k v w :
+  alookup x (l ++ [(k, v)]) = Some w -> alookup x l = Some w \/ (x = k /\ w = v).
+Proof.
+  induction l as [|[k' v'] l IH]; cbn.
+  - destruct (String.eqb_spec x k); [|discriminate]. intro H; inversion H. right. split; auto.
+  - destruct (String.eqb x k'); [intro H; left; exact H | exact IH].
+Qed.
+
+Lemma g_check_globals st t v l : gs_globals (fst (g_check_type_exists st t v l)) = gs_globals st.
+Proof.
+  unfold g_check_type_exists. destruct (is_prim t); [reflexivity|].
+  destruct (amem _ _); reflexivity.
+Qed.
+
+Lemma decl_fn_params_globals : forall ps st q fl,
+  gs_globals (fst (decl_fn_params st q fl ps)) = gs_globals st.
+Proof.
+  induction ps as [|[x t] ps IH]; intros st q fl; cbn [decl_fn_params]; [reflexivity|].
+  destruct q; [apply IH|].
+  pose proof (g_check_globals st (sem_of_ty t) (iname x) fl) as Hg.
+  destruct (g_check_type_exists st (sem_of_ty t) (iname x) fl) as [st' ok]. cbn [fst] in Hg.
+  rewrite IH. exact Hg.
+Qed.
+
+Lemma GOk_decl_type st n a : GOk (gs_globals st) -> GOk (gs_globals (decl_type st n a)).
+Proof.
+  intro H. unfold decl_type. destruct (amem _ _); [exact H|]. exact H.
+Qed.
+
+Lemma GOk_decl_const st n ty v : GOk (gs_globals st) -> GOk (gs_globals (decl_const st n ty v)).
+Proof.
+  intros [Hc Hf]. unfold decl_const. destruct (amem _ _); [split; assumption|].
+  destruct (check_const_links _ _); [split; assumption|].
+  pose proof (g_check_globals st (c_ty (const_of n ty v)) (c_name (const_of n ty v)) (iloc n)) as Hg.
+  destruct (g_check_type_exists st _ _ _) as [st' ok]. cbn [fst] in Hg.
+  destruct ok; [|rewrite Hg; split; assumption].
+  cbn [gs_globals g_consts g_funcs]. rewrite Hg. split; [|exact Hf].
+  intros x c Hl. apply alookup_snoc in Hl as [Hl|[-> ->]]; [apply Hc, Hl | reflexivity].
+Qed.
+
+Lemma GOk_decl_fn st f : GOk (gs_globals st) -> GOk (gs_globals (decl_fn st f)).
+Proof.
+  intros [Hc Hf]. unfold decl_fn. destruct (amem _ _); [split; assumption|].
+  pose proof (g_check_globals st (sem_of_ty (fn_result f)) (iname (fn_name f)) (iloc (fn_name f))) as Hg1.
+  destruct (g_check_type_exists st _ _ _) as [st1 ok]. cbn [fst] in Hg1.
+  pose proof (decl_fn_params_globals (fn_params f) st1 (negb ok) (iloc (fn_name f))) as Hg2.
+  destruct (decl_fn_params st1 _ _ _) as [st2 quit]. cbn [fst] in Hg2.
+  destruct quit; [rewrite Hg2, Hg1; split; assumption|].
+  cbn [gs_globals g_consts g_funcs]. rewrite Hg2, Hg1. split; [exact Hc|].
+  intros x fd Hl. apply alookup_snoc in Hl as [Hl|[-> ->]]; [apply Hf, Hl | reflexivity].
+Qed.
+
+Lemma fold_left_inv {A B} (P : A -> Prop) (g : A -> B -> A) :
+  (forall a b, P a -> P (g a b)) -> forall l a, P a -> P (fold_left g l a).
+Proof. intros H l. induction l as [|b l IH]; intros a Ha; [exact Ha | apply IH, H, Ha]. Qed.
+
+Lemma GOk_declarations p : GOk (gs_globals (declarations p)).
+Proof.
+  unfold declarations.
+  apply (fold_left_inv (fun st => GOk (gs_globals st))).
+  - intros st t H. destruct t; cbn [pass_decls]; [exact H | exact H | apply GOk_decl_const, H |
+                                                   apply GOk_decl_fn, H].
+  - apply (fold_left_inv (fun st => GOk (gs_globals st))).
+    + intros st t H. destruct t; cbn [pass_types]; try exact H. apply GOk_decl_type, H.
+    + split; intros x c H; discriminate.
+Qed.
+
+(** ** One function *)
+Lemma decl_names_stack c : map fst (stack_decls c) = C12.decl_names c.
+Proof.
+  unfold stack_decls, C12.decl_names, decl_values. induction c as [|i c IH]; [reflexivity|].
+  cbn [flat_map]. rewrite !map_app, IH. destruct i; reflexivity.
+Qed.
+
+Lemma WF_init0 e : WF (BSt [empty_block] e).
+Proof. split; [discriminate | apply Inv_reg_init]. Qed.
+
+Lemma function_body_C06 G sm f a s root :
+  GOk G -> function_body G [] f = Ok a s -> errs s = [] -> frames s = [root] ->
+  chk_C06_fn sm f root = true.
+Proof.
+  intros [HGc HGf] H He Hf.
+  pose proof (function_body_Inv_names _ _ _ _ _ H) as Hin.
+  assert (HC : Ctx s = b_ctx root) by (unfold Ctx; rewrite Hf; reflexivity).
+  assert (HD : NoDup (map fst (stack_decls (Ctx s)))).
+  { rewrite decl_names_stack. unfold Ctx. apply (in_nodup _ Hin). }
+  unfold chk_C06_fn. rewrite <- HC.
+  set (Cf := Ctx s) in *. set (D := stack_decls Cf). set (es := fn_sites D f).
+  set (NM := C06.decl_names f es).
+  unfold function_body in H.
+  destruct (T_function_body_m Cf G NM HD HGc HGf f (BSt [empty_block] []) (WF_init0 []) a s H)
+    as (_ & _ & HQ).
+  destruct HQ as (c & kend & C & Hnum & HQ).
+  { split; [exact He|]. exists []. rewrite app_nil_r. reflexivity. }
+  change (Ctx (BSt [empty_block] [])) with (@nil instr) in C. cbn [app] in C. fold Cf in C.
+  fold D es in Hnum, HQ.
+  destruct HQ as [S K].
+  - unfold NM, C06.decl_names. apply (Numbered_NMok _ _ _ Hnum). rewrite map_length. reflexivity.
+  - unfold NM, C06.decl_names. apply at_offN_prefix.
+  - split; [|exact I]. intro x. reflexivity.
+  - reflexivity.
+  - apply andb_true_intro. split.
+    + apply same_len_length. unfold KInv in K. fold Cf D in K.
+      pose proof (Numbered_count _ _ _ Hnum) as Hc. unfold NM, C06.decl_names.
+      rewrite app_length, map_length. lia.
+    + change (Env (BSt [empty_block] [])) with (@nil (N * dt * bool)) in S. rewrite <- C in S.
+      apply sites_ok_eqb. exact S.
+Qed.
+
+(** ** The driver *)
+Lemma chk_fns_snoc sm : forall fs roots f r,
+  chk_C06_fns sm fs roots = true -> chk_C06_fn sm f r = true ->
+  chk_C06_fns sm (fs ++ [f]) (roots ++ [r]) = true.
+Proof.
+  induction fs as [|f0 fs IH]; intros [|r0 roots] f r H Hc; cbn in *; try discriminate.
+  - rewrite Hc. reflexivity.
+  - apply Bool.andb_true_iff in H as [H1 H2]. rewrite H1. cbn. apply IH; assumption.
+Qed.
+
+Lemma bodies_errs_grow G : forall fs errs0 roots errs1 roots1,
+  bodies G errs0 roots fs = inr (errs1, roots1) -> exists e, errs1 = errs0 ++ e.
+Proof.
+  induction fs as [|f fs IH]; intros errs0 roots errs1 roots1 H; cbn [bodies] in H.
+  - inversion H; subst. exists []. rewrite app_nil_r. reflexivity.
+  - destruct (function_body G errs0 f) as [a s| |] eqn:E; try discriminate.
+    destruct (frames s) as [|root [|]]; try discriminate.
+    destruct (IH _ _ _ _ H) as [e2 E2]. destruct (function_body_errs _ _ _ _ _ E) as [e1 E1].
+    exists (e1 ++ e2). rewrite E2, E1, app_assoc. reflexivity.
+Qed.
+
+Lemma bodies_C06 G sm : GOk G -> forall fs fs0 errs0 roots errs1 roots1,
+  bodies G errs0 roots fs = inr (errs1, roots1) -> errs1 = [] ->
+  chk_C06_fns sm fs0 roots = true -> chk_C06_fns sm (fs0 ++ fs) roots1 = true.
+Proof.
+  intro HG. induction fs as [|f fs IH]; intros fs0 errs0 roots errs1 roots1 H He Ho;
+    cbn [bodies] in H.
+  - inversion H; subst. rewrite app_nil_r. exact Ho.
+  - destruct (function_body G errs0 f) as [a s| |] eqn:E; try discriminate.
+    destruct (frames s) as [|root [|]] eqn:Ef; try discriminate.
+    destruct (bodies_errs_grow _ _ _ _ _ _ H) as [e2 E2].
+    destruct (function_body_errs _ _ _ _ _ E) as [e1 E1].
+    subst errs1. symmetry in E2. apply app_eq_nil in E2 as [Hs _].
+    rewrite Hs in E1. symmetry in E1. apply app_eq_nil in E1 as [H0 _]. subst errs0.
+    pose proof (function_body_C06 G sm f a s root HG E Hs Ef) as Hc.
+    specialize (IH (fs0 ++ [f]) (errs s) (roots ++ [root]) [] roots1 H eq_refl
+                   (chk_fns_snoc sm _ _ _ _ Ho Hc)).
+    rewrite <- app_assoc in IH. exact IH.
+Qed.
+
+Theorem run_denotes_source_gen : forall sm p out,
+  run p = ROk out -> o_errors out = [] -> chk_C06_gen sm p out = true.
+Proof.
+  intros sm p out H Hacc. unfold run in H.
+  destruct (bodies (gs_globals (declarations p)) (gs_errs (declarations p)) [] (functions_of p))
+    as [r|[errors roots]] eqn:E; [exfalso; eapply bodies_not_ok; subst r; exact E|].
+  inversion H; subst; clear H. cbn [o_errors] in Hacc. subst errors.
+  unfold chk_C06_gen. cbn [o_errors o_fns].
+  apply (bodies_C06 _ sm (GOk_declarations p) _ [] _ _ _ _ E eq_refl eq_refl).
+Qed.
+
+(** C06: on accepted programs every computed value is the value the source expression denotes *)
+Theorem run_denotes_source : forall p out,
+  run p = ROk out -> o_errors out = [] -> chk_C06 p out = true.
+Proof. exact (run_denotes_source_gen false). Qed.
+
+(** the stronger reading: every read comes from the declaration that lexical scoping selects *)
+Theorem run_denotes_source_scoped : forall p out,
+  run p = ROk out -> o_errors out = [] -> chk_C06_scoped p out = true.
+Proof. exact (run_denotes_source_gen true). Qed.
+
+Print Assumptions run_denotes_source.
+Print Assumptions run_denotes_source_scoped.
+
+(** ** The expression level, stated on its own: on a run that is accepted in the end (no error up
+    to [s'], whose root stack is a prefix of the final stack [Cf]), from value tables that hold
+    what the source scope [sc] selects, the analysis of [e] yields an operand whose tree -- read
+    back through the registers, F7 included -- has exactly the tokens of [e], and the calls of
+    [e] as its use sites. *)
+Theorem expression_denotes : forall Cf G NM fuel e s r s' sc,
+  NoDup (map fst (stack_decls Cf)) -> GOk G -> WF s ->
+  expression G fuel e s = Ok r s' -> Fin Cf s' ->
+  ScopeOk (stack_decls Cf) NM sc (vals s) ->
+  exists er c, r = Some er /\ Ctx s' = Ctx s ++ c /\ vals s' = vals s /\
+    Forall2 (site_ok (stack_decls Cf) NM) (scan (Env s) c) (call_sites (stack_decls Cf) sc e) /\
+    tk (stack_decls Cf) NM (operand (Env s') er) = etoks (stack_decls Cf) sc e /\
+    nobad (etoks (stack_decls Cf) sc e).
+Proof.
+  intros Cf G NM fuel e s r s' sc HD [HGc HGf] W H F Hsc.
+  destruct (D_expression Cf G NM HD HGc HGf fuel e s W r s' H) as (_ & _ & HQ).
+  destruct (HQ F sc Hsc) as (er & c & Hr & C & V & _ & _ & S & T & B).
+  exists er, c. repeat split; assumption.
+Qed.
+
+Print Assumptions expression_denotes.
